@@ -40,6 +40,11 @@ Section Simple.
     exact (ids_nodup value shash skeq sgood s_sym s_hash enc (empty_g value) (or_introl eq_refl) Hinj).
   Qed.
 
+  (* AddAllMapKeys adds the keys of a Go map in its iteration order: rejection does not depend on the order *)
+  Lemma simple_add_all_order_independent : forall ks ks', Forall sgood ks -> Permutation ks ks' ->
+    (add_all value shash skeq (empty_g value) ks = None <-> add_all value shash skeq (empty_g value) ks' = None).
+  Proof. exact (add_all_none_perm value shash skeq sgood s_sym s_hash (empty_g value) (or_introl eq_refl)). Qed.
+
   Lemma simple_response_filed_under_original : forall (decode_key : bytes -> option value) (P : Type),
     (forall raw k, decode_key raw = Some k -> sgood k) ->
     forall ks s (entries : list (bytes * option P)) m, Forall sgood ks ->
@@ -72,6 +77,10 @@ Section Complex.
   Lemma complex_locate_returns_original : forall ks s k o, Forall cgood ks -> cgood k ->
     add_all value chash ckeq (empty_g value) ks = Some s -> In o ks -> ckeq o k = true -> locate value chash ckeq s k = Some o.
   Proof. exact (locate_returns_original_g value chash ckeq cgood c_sym c_trans c_hash). Qed.
+
+  Lemma complex_add_all_order_independent : forall ks ks', Forall cgood ks -> Permutation ks ks' ->
+    (add_all value chash ckeq (empty_g value) ks = None <-> add_all value chash ckeq (empty_g value) ks' = None).
+  Proof. exact (add_all_none_perm value chash ckeq cgood c_sym c_hash (empty_g value) (or_introl eq_refl)). Qed.
 
   Lemma complex_response_filed_under_original : forall (decode_key : bytes -> option value) (P : Type),
     (forall raw k, decode_key raw = Some k -> cgood k) ->
@@ -133,3 +142,12 @@ Example primitive_signed_zero_original :
   exists s, add_all value phash (pkeq PDouble) (empty_p value) [VDouble 0] = Some s /\
             locate value phash (pkeq PDouble) s (VDouble 9223372036854775808) = Some (VDouble 0).
 Proof. eexists. split; reflexivity. Qed.
+
+(* a stranger whose hash collides with a requested key's is not found, even when that key is alone in its bucket: witness on the
+   FNV constants of the current tree (the two int64 keys hash alike) *)
+Example colliding_stranger_not_found :
+  let t := HTyperef PLong in
+  shash [] 2 t (VLong 838517077) = shash [] 2 t (VLong 149557353) /\
+  exists s, add_all value (shash [] 2 t) (skeq [] 2 t) (empty_g value) [VLong 838517077] = Some s /\
+            locate value (shash [] 2 t) (skeq [] 2 t) s (VLong 149557353) = None.
+Proof. vm_compute. split; [reflexivity|]. eexists. split; reflexivity. Qed.
